@@ -104,10 +104,12 @@ CHECKS.update({
                 technique="exact symbolic execution of the real operator arithmetic on indeterminate factors (normal-form decision); runtime contracts against an independent "
                           "exact denotation, exhaustive over expressions of bounded depth (bounded stand-in)",
                 note=OTHER_NOTE),
-    "C16": dict(cat="exploration", ref="DESIGN §8 C16",
-                text="Defining relations of every supported symbol of every basis class (symbol list extracted from the op_mat source with ast; uncovered symbols are a "
+    "C16": dict(cat="other", ref="DESIGN §8 C16, S.2",
+                text="Deductive: the periodic wrap-around of the cell index in TI1DModel.__init__ (mechanical slice, pyvc/z3, all cells / offsets / chain lengths; counter-models "
+                     "replayed on the real builder) and construct_j_matrix executed exactly on an indeterminate coupling for 1..8 molecules, open and periodic. Defining relations of every supported symbol of every basis class (symbol list extracted from the op_mat source with ast; uncovered symbols are a "
                      "checker error) and independently assembled dense Hamiltonians for the model builders; bounded; several recorded findings.",
-                technique="runtime contracts (defining relations, independent closed forms, quadrature) on the real op_mat / builders over bounded parameter grids",
+                technique="contract-based deductive verification of the builders' index logic (pyvc slice, exact execution); runtime contracts (defining relations, independent "
+                          "closed forms, quadrature) on the real op_mat / builders over bounded parameter grids (bounded stand-in)",
                 note=OTHER_NOTE),
     "C17": dict(cat="other", ref="DESIGN §8 C17, S.2",
                 text="The Jordan-Wigner sign loop of simplify_op proved on a mechanical slice (pyvc: the counters equal the number of (non-Z, Z) inversions, the factor is "
@@ -179,8 +181,8 @@ def main():
                   "baseline_off_cmd": "cd /repo && /venv/bin/python -m pytest -ra -q -p no:cacheprovider --timeout=900 --continue-on-collection-errors",
                   "source_commits": [], "add_only": True},
         "engines": [
-            {"name": "pyvc", "path": "vk/pyvc", "serves_properties": ["C02", "C03", "C04", "C05", "C06", "C14", "C17", "C20"], "kind_free_text": "AST -> verification conditions (loop invariants, call by contract) -> z3/cvc5"},
-            {"name": "exact-exec", "path": "vk/symx/exactexec.py", "serves_properties": ["C19"], "kind_free_text": "real source executed on exact rationals / z3 reals"},
+            {"name": "pyvc", "path": "vk/pyvc", "serves_properties": ["C02", "C03", "C04", "C05", "C06", "C14", "C16", "C17", "C20"], "kind_free_text": "AST -> verification conditions (loop invariants, call by contract) -> z3/cvc5"},
+            {"name": "exact-exec", "path": "vk/symx/exactexec.py", "serves_properties": ["C16", "C19"], "kind_free_text": "real source executed on exact rationals / z3 reals"},
             {"name": "effects", "path": "vk/pyvc/effects.py", "serves_properties": ["C13"], "kind_free_text": "alias / effect analysis of the real source against sidecar modifies clauses"},
             {"name": "symx", "path": "vk/symx", "serves_properties": ["C01", "C02", "C03", "C04", "C07", "C11", "C15", "C18"], "kind_free_text": "real NumPy-level code executed on exact symbolic polynomial scalars; identities decided by normal form"},
             {"name": "rtc", "path": "vk/rtc", "serves_properties": ["C01", "C02", "C03", "C04", "C05", "C06", "C07", "C08", "C09", "C10", "C11", "C12", "C13", "C14", "C15", "C16", "C17", "C18", "C20"], "kind_free_text": "runtime contracts on the real functions, bounded-exhaustive inputs (bounded stand-in, never counted as proved)"},
